@@ -53,4 +53,724 @@ theorem fileFlagsToMode_factor (c : Cfg) (h : c.GoodMode) (flags : Nat) :
   unfold fileFlagsToMode appendSet
   rw [h.accMask, h.appendBit, and_3, and_1024]
 
+/-! ### byte-string helpers -/
+
+theorem lstripWs_of_head {c : Nat} {cs : Bytes} (h : isWs c = false) : lstripWs (c :: cs) = c :: cs := by
+  simp [lstripWs, h]
+
+theorem lstripWs_noWs (s : Bytes) (h : NoWs s) : lstripWs s = s := by
+  cases s with
+  | nil => rfl
+  | cons c cs => exact lstripWs_of_head (h c (by simp))
+
+theorem stripWs_noWs (s : Bytes) (h : NoWs s) : stripWs s = s := by
+  unfold stripWs rstripWs
+  rw [lstripWs_noWs s h]
+  have hr : NoWs s.reverse := fun c hc => h c (by simpa using hc)
+  rw [lstripWs_noWs _ hr, List.reverse_reverse]
+
+theorem noWs_append {a b : Bytes} (ha : NoWs a) (hb : NoWs b) : NoWs (a ++ b) := by
+  intro c hc
+  rcases List.mem_append.mp hc with h | h
+  · exact ha c h
+  · exact hb c h
+
+theorem renderOct_isDigit (n : Nat) : ∀ c ∈ renderRadix octal n, isDigit c = true := by
+  apply renderRadix_chars octal n (fun c => isDigit c = true)
+  intro d hd
+  have hd' : d < 8 := hd
+  show isDigit (48 + d) = true
+  simp only [isDigit, Bool.and_eq_true, decide_eq_true_eq]
+  omega
+
+theorem renderOct_noWs (n : Nat) : NoWs (renderRadix octal n) :=
+  fun c hc => isDigit_not_ws c (renderOct_isDigit n c hc)
+
+theorem renderOct_not_mem (n c : Nat) (h : isDigit c = false) : c ∉ renderRadix octal n := by
+  intro hm
+  have := renderOct_isDigit n c hm
+  simp [this] at h
+
+theorem parseOct_zero_render (n : Nat) : parseRadix? octal (48 :: renderRadix octal n) = some n := by
+  have key := parse_render octal n
+  cases h : renderRadix octal n with
+  | nil => exact absurd h (renderRadixAux_ne_nil octal n [])
+  | cons c cs =>
+    rw [h] at key
+    simp only [parseRadix?] at key ⊢
+    simp only [parseRadixAux]
+    have : octal.val 48 = some 0 := by decide
+    simp only [this, Nat.zero_mul, Nat.add_zero]
+    simpa [parseRadixAux] using key
+
+theorem pyInt_dec (n : Nat) : pyInt 10 (renderDec n) = some n := by
+  unfold pyInt
+  rw [stripWs_noWs _ (renderDec_noWs n)]
+  have : radixOf 10 = decimal := by simp [radixOf]
+  rw [this]
+  exact parseDec_renderDec n
+
+theorem pyInt_oct (n : Nat) : pyInt 8 (48 :: renderRadix octal n) = some n := by
+  unfold pyInt
+  have hn : NoWs (48 :: renderRadix octal n) := by
+    intro c hc
+    rcases List.mem_cons.mp hc with h | h
+    · subst h; decide
+    · exact renderOct_noWs n c h
+  rw [stripWs_noWs _ hn]
+  have : radixOf 8 = octal := by simp [radixOf]
+  rw [this]
+  exact parseOct_zero_render n
+
+/-! ### fdinfo: `pos:` decimal and `flags:` octal round trip -/
+
+structure Cfg.GoodScan (c : Cfg) : Prop where
+  posBase : c.posBase = 10
+  posIdx : c.posIdx = 1
+  flagsBase : c.flagsBase = 8
+  flagsIdx : c.flagsIdx = 1
+  delSuffix : c.delSuffix = delText
+  delCut : c.delCut = 10
+  absPrefix : c.absPrefix = [47]
+  linkGoneEnoent : c.linkGoneEnoent = true
+  linkGoneEsrch : c.linkGoneEsrch = true
+  infoGoneEnoent : c.infoGoneEnoent = true
+  infoGoneEsrch : c.infoGoneEsrch = true
+  finalAliveCheck : c.finalAliveCheck = true
+
+def posLine (pos : Nat) : Bytes := [112, 111, 115, 58] ++ [9] ++ renderDec pos
+def flagsLine (flags : Nat) : Bytes := [102, 108, 97, 103, 115, 58] ++ [9] ++ (48 :: renderRadix octal flags)
+
+theorem posLine_no_nl (pos : Nat) : 10 ∉ posLine pos := by
+  unfold posLine
+  simp only [List.mem_append, not_or]
+  exact ⟨⟨by decide, by decide⟩, renderDec_not_mem pos 10 (by decide)⟩
+
+theorem flagsLine_no_nl (flags : Nat) : 10 ∉ flagsLine flags := by
+  unfold flagsLine
+  simp only [List.mem_append, List.mem_cons, not_or]
+  exact ⟨⟨by decide, by decide⟩, by decide, renderOct_not_mem flags 10 (by decide)⟩
+
+theorem splitWs_posLine (pos : Nat) : splitWs (posLine pos) = [[112, 111, 115, 58], renderDec pos] := by
+  have h := splitWs_join 9 (by decide) [[112, 111, 115, 58], renderDec pos] (by
+    intro f hf
+    simp only [List.mem_cons, List.not_mem_nil, or_false] at hf
+    rcases hf with h | h
+    · subst h; exact ⟨by decide, by unfold NoWs; decide⟩
+    · subst h; exact ⟨renderDec_ne_nil pos, renderDec_noWs pos⟩)
+  simpa [joinWith, posLine] using h
+
+theorem splitWs_flagsLine (flags : Nat) :
+    splitWs (flagsLine flags) = [[102, 108, 97, 103, 115, 58], 48 :: renderRadix octal flags] := by
+  have h := splitWs_join 9 (by decide) [[102, 108, 97, 103, 115, 58], 48 :: renderRadix octal flags] (by
+    intro f hf
+    simp only [List.mem_cons, List.not_mem_nil, or_false] at hf
+    rcases hf with h | h
+    · subst h; exact ⟨by decide, by unfold NoWs; decide⟩
+    · subst h
+      refine ⟨by simp, ?_⟩
+      intro c hc
+      rcases List.mem_cons.mp hc with h | h
+      · subst h; decide
+      · exact renderOct_noWs flags c h)
+  simpa [joinWith, flagsLine] using h
+
+theorem fdinfoText_eq (d : Fd) :
+    fdinfoText d = posLine d.pos ++ 10 :: (flagsLine d.flags ++ 10 :: d.tail) := rfl
+
+theorem parseFdinfo_render (c : Cfg) (hg : c.GoodScan) (d : Fd) :
+    parseFdinfo c (fdinfoText d) = .ok (d.pos, d.flags) := by
+  unfold parseFdinfo
+  rw [fdinfoText_eq, splitOn_append 10 _ _ (posLine_no_nl d.pos),
+    splitOn_append 10 _ _ (flagsLine_no_nl d.flags)]
+  simp only [List.getD_cons_zero, List.getD_cons_succ, hg.posIdx, hg.flagsIdx, hg.posBase, hg.flagsBase,
+    splitWs_posLine, splitWs_flagsLine, List.getElem?_cons_succ, List.getElem?_cons_zero, pyInt_dec, pyInt_oct]
+
+/-! ### `readlink()`: NUL cut and the ' (deleted)' rule -/
+
+theorem takeWhile_no_nul (s : Bytes) (h : 0 ∉ s) : s.takeWhile (· != 0) = s := by
+  induction s with
+  | nil => rfl
+  | cons c cs ih =>
+    have hc : c ≠ 0 := fun e => h (by simp [e])
+    have hcs : 0 ∉ cs := fun m => h (by simp [m])
+    have hb : (c != 0) = true := by simpa using hc
+    simp [List.takeWhile, hb, ih hcs]
+
+theorem endsWith_append (a p : Bytes) : endsWith p (a ++ p) = true := by
+  unfold endsWith
+  rw [List.reverse_append, List.isPrefixOf_iff_prefix]
+  exact List.prefix_append _ _
+
+theorem take_sub_suffix (a p : Bytes) : (a ++ p).take ((a ++ p).length - p.length) = a := by
+  have : (a ++ p).length - p.length = a.length := by simp
+  rw [this, List.take_left']
+  rfl
+
+theorem startsWith_slash {s : Bytes} (h : s.head? = some 47) : startsWith [47] s = true := by
+  cases s with
+  | nil => simp at h
+  | cons c cs =>
+    simp only [List.head?_cons, Option.some.injEq] at h
+    subst h
+    simp [startsWith, List.isPrefixOf]
+
+theorem head_of_startsWith {s : Bytes} (h : startsWith [47] s = true) : s.head? = some 47 := by
+  cases s with
+  | nil => simp [startsWith, List.isPrefixOf] at h
+  | cons c cs =>
+    simp only [startsWith, List.isPrefixOf, Bool.and_true, beq_iff_eq] at h
+    simp [h]
+
+theorem head_takeWhile {p : Nat → Bool} {s : Bytes} {x : Nat} (h : (s.takeWhile p).head? = some x) :
+    s.head? = some x := by
+  cases s with
+  | nil => simp at h
+  | cons c cs =>
+    simp only [List.takeWhile] at h
+    split at h
+    · simpa using h
+    · simp at h
+
+theorem head_take {n : Nat} {s : Bytes} {x : Nat} (h : (s.take n).head? = some x) : s.head? = some x := by
+  cases n with
+  | zero => simp at h
+  | succ n =>
+    cases s with
+    | nil => simp at h
+    | cons c cs => simpa using h
+
+/-- whatever `readlink()` does to a link text, it never invents a leading `/` -/
+theorem pyReadlink_head (c : Cfg) (fs : FS) (raw : Bytes) (h : (pyReadlink c fs raw).head? = some 47) :
+    raw.head? = some 47 := by
+  unfold pyReadlink at h
+  simp only at h
+  split at h
+  · exact head_takeWhile (head_take h)
+  · exact head_takeWhile h
+
+theorem not_abs_of_head (c : Cfg) (hg : c.GoodScan) (fs : FS) (raw : Bytes) (h : raw.head? ≠ some 47) :
+    startsWith c.absPrefix (pyReadlink c fs raw) = false := by
+  rw [hg.absPrefix]
+  cases hs : startsWith [47] (pyReadlink c fs raw) with
+  | false => rfl
+  | true => exact absurd (pyReadlink_head c fs raw (head_of_startsWith hs)) h
+
+theorem delText_no_nul : 0 ∉ delText := by decide
+
+theorem pyReadlink_regular (c : Cfg) (hg : c.GoodScan) (fs : FS) (path : Bytes) (del : Bool)
+    (hwf : WFKind fs (.regular path del)) : pyReadlink c fs (linkText (.regular path del)) = path := by
+  obtain ⟨_, hnul, hamb⟩ := hwf
+  unfold pyReadlink
+  cases del with
+  | true =>
+    have h0 : 0 ∉ path ++ delText := by
+      simp only [List.mem_append, not_or]; exact ⟨hnul, delText_no_nul⟩
+    simp only [linkText, if_true, takeWhile_no_nul _ h0, hg.delSuffix, hg.delCut, endsWith_append]
+    simp only [if_true] at hamb
+    simp only [hamb, Bool.not_false, Bool.and_self, if_true]
+    exact take_sub_suffix path delText
+  | false =>
+    simp only [linkText, Bool.false_eq_true, if_false, takeWhile_no_nul _ hnul, hg.delSuffix]
+    simp only [Bool.false_eq_true, if_false] at hamb
+    cases he : endsWith delText path with
+    | false => simp
+    | true => simp [hamb he]
+
+theorem pyReadlink_device (c : Cfg) (hg : c.GoodScan) (fs : FS) (path : Bytes)
+    (hwf : WFKind fs (.device path)) : fs.isFile (pyReadlink c fs (linkText (.device path))) = false := by
+  obtain ⟨hnul, h1, h2⟩ := hwf
+  unfold pyReadlink
+  simp only [linkText, takeWhile_no_nul _ hnul, hg.delSuffix, hg.delCut]
+  unfold stripDel at h2
+  cases he : endsWith delText path with
+  | false => simpa using h1
+  | true =>
+    simp only [he, if_true] at h2
+    cases hx : fs.pathExists path with
+    | true => simpa using h1
+    | false => simpa using h2
+
+/-- does the scan reach the fdinfo stage for this descriptor, and under which path -/
+def target (fs : FS) : FdKind → Option Bytes
+  | .regular path _ => if fs.isFile path then some path else none
+  | _ => none
+
+theorem link_cond (c : Cfg) (hg : c.GoodScan) (fs : FS) (k : FdKind) (hwf : WFKind fs k) :
+    (startsWith c.absPrefix (pyReadlink c fs (linkText k)) && fs.isFile (pyReadlink c fs (linkText k)))
+      = (target fs k).isSome ∧ ∀ q, target fs k = some q → pyReadlink c fs (linkText k) = q := by
+  cases k with
+  | regular path del =>
+    rw [pyReadlink_regular c hg fs path del hwf, hg.absPrefix, startsWith_slash hwf.1]
+    simp only [target, Bool.true_and]
+    cases hf : fs.isFile path <;> simp
+  | socket ino =>
+    rw [not_abs_of_head c hg fs _ (by simp [linkText])]; simp [target]
+  | pipe ino =>
+    rw [not_abs_of_head c hg fs _ (by simp [linkText])]; simp [target]
+  | anon name =>
+    rw [not_abs_of_head c hg fs _ (by simp [linkText])]; simp [target]
+  | device path =>
+    rw [pyReadlink_device c hg fs path hwf]; simp [target]
+  | relative t =>
+    rw [not_abs_of_head c hg fs _ (by simpa [linkText, WFKind] using hwf)]; simp [target]
+
+/-! ### one loop iteration over a rendered descriptor -/
+
+/-- the descriptor makes the scan set `hit_enoent` -/
+def hits (fs : FS) (d : Fd) : Bool :=
+  match d.closesAt with
+  | some (.beforeReadlink _) => true
+  | some (.beforeFdinfo _) => (target fs d.kind).isSome
+  | none => false
+
+theorem listed_eq (fs : FS) (d : Fd) :
+    listed fs d = match d.closesAt with
+      | none => (target fs d.kind).map fun p => ⟨p, d.n, d.pos, Spec.mode d.flags, d.flags⟩
+      | some _ => none := by
+  unfold listed target
+  cases d.kind <;> cases d.closesAt <;> simp
+
+theorem hits_listed (fs : FS) (d : Fd) (h : hits fs d = true) : listed fs d = none := by
+  rw [listed_eq]
+  unfold hits at h
+  cases hc : d.closesAt with
+  | none => simp [hc] at h
+  | some s => rfl
+
+theorem scanOne_render (c : Cfg) (hg : c.GoodScan) (hm : ∀ flags, fileFlagsToMode c flags = some (Spec.mode flags))
+    (fs : FS) (d : Fd) (hwf : WFFd fs d) :
+    scanOne c fs (renderFd d) =
+      if hits fs d then .hit else match listed fs d with
+        | some f => .item f
+        | none => .skip := by
+  obtain ⟨hcond, hpath⟩ := link_cond c hg fs d.kind hwf
+  rw [listed_eq]
+  unfold scanOne hits renderFd
+  cases hc : d.closesAt with
+  | some st =>
+    cases st with
+    | beforeReadlink e =>
+      cases e <;> simp [linkErrStep, linkErrOf, hg.linkGoneEnoent, hg.linkGoneEsrch]
+    | beforeFdinfo e =>
+      simp only [hcond]
+      cases ht : target fs d.kind with
+      | none => simp
+      | some q => cases e <;> simp [infoErrStep, hg.infoGoneEnoent, hg.infoGoneEsrch]
+  | none =>
+    simp only [hcond]
+    cases ht : target fs d.kind with
+    | none => simp
+    | some q =>
+      simp only [Option.isSome_some, if_true, parseFdinfo_render c hg d, hm, pyInt_dec,
+        hpath q ht, Option.map_some, Bool.false_eq_true, if_false]
+
+/-- the whole loop over a rendered table -/
+theorem scan_render (c : Cfg) (hg : c.GoodScan) (hm : ∀ flags, fileFlagsToMode c flags = some (Spec.mode flags))
+    (fs : FS) (t : List Fd) (hwf : ∀ d ∈ t, WFFd fs d) :
+    scan c fs (t.map renderFd) = .ok (t.filterMap (listed fs), t.any (hits fs)) := by
+  induction t with
+  | nil => rfl
+  | cons d ds ih =>
+    have ih' := ih (fun x hx => hwf x (by simp [hx]))
+    have h1 := scanOne_render c hg hm fs d (hwf d (by simp))
+    simp only [List.map_cons, scan]
+    cases hh : hits fs d with
+    | true =>
+      simp only [hh, if_true] at h1
+      rw [h1, ih']
+      simp [hits_listed fs d hh, hh, Except.map]
+    | false =>
+      simp only [hh, Bool.false_eq_true, if_false] at h1
+      cases hl : listed fs d with
+      | none =>
+        simp only [hl] at h1
+        rw [h1, ih']
+        simp [hl, hh]
+      | some f =>
+        simp only [hl] at h1
+        rw [h1, ih']
+        simp [hl, hh, Except.map]
+
+/-! ### a process dying during the scan -/
+
+theorem killFrom_length (k : Nat) (t : List Fd) : (killFrom k t).length = t.length := by
+  induction t generalizing k with
+  | nil => cases k <;> rfl
+  | cons d ds ih => cases k <;> simp [killFrom, ih]
+
+theorem killFrom_ge (k : Nat) (t : List Fd) (h : t.length ≤ k) : killFrom k t = t := by
+  induction t generalizing k with
+  | nil => cases k <;> rfl
+  | cons d ds ih =>
+    cases k with
+    | zero => simp at h
+    | succ k => simp [killFrom, ih k (by simpa using h)]
+
+theorem killFrom_wf (fs : FS) (k : Nat) (t : List Fd) (h : ∀ d ∈ t, WFFd fs d) :
+    ∀ d ∈ killFrom k t, WFFd fs d := by
+  induction t generalizing k with
+  | nil => cases k <;> simp [killFrom]
+  | cons d ds ih =>
+    have hd := h d (by simp)
+    have hds : ∀ x ∈ ds, WFFd fs x := fun x hx => h x (by simp [hx])
+    cases k with
+    | zero =>
+      intro x hx
+      simp only [killFrom, List.mem_cons] at hx
+      rcases hx with e | hx
+      · subst e; exact hd
+      · exact ih 0 hds x hx
+    | succ k =>
+      intro x hx
+      simp only [killFrom, List.mem_cons] at hx
+      rcases hx with e | hx
+      · subst e; exact hd
+      · exact ih k hds x hx
+
+theorem killFrom_hits (fs : FS) (k : Nat) (t : List Fd) (h : k < t.length) :
+    (killFrom k t).any (hits fs) = true := by
+  induction t generalizing k with
+  | nil => simp at h
+  | cons d ds ih =>
+    cases k with
+    | zero => simp [killFrom, hits]
+    | succ k =>
+      simp only [killFrom, List.any_cons, ih k (by simpa using h), Bool.or_true]
+
+/-- descriptors that close do not disturb the report about the others -/
+theorem listed_filter_open (fs : FS) (t : List Fd) :
+    t.filterMap (listed fs) = (t.filter fun d => d.closesAt.isNone).filterMap (listed fs) := by
+  induction t with
+  | nil => rfl
+  | cons d ds ih =>
+    cases hc : d.closesAt with
+    | none =>
+      simp only [List.filter_cons, hc, Option.isNone_none, if_true, List.filterMap_cons, ih]
+    | some st =>
+      have : listed fs d = none := by rw [listed_eq, hc]
+      simp [hc, this, ih]
+
+/-! ### /proc/<pid>/io -/
+
+structure Cfg.GoodIo (c : Cfg) : Prop where
+  ioSep : c.ioSep = sepText
+  ioKeys : c.ioKeys = documentedKeys
+  pioFields : c.pioFields = documentedFields
+
+theorem splitOn_renderItems (its : List Item) (h : ∀ it ∈ its, 10 ∉ it.text) :
+    splitOn 10 (renderItems its) = its.map Item.text ++ [[]] := by
+  induction its with
+  | nil => rfl
+  | cons it its ih =>
+    simp only [renderItems, List.map_cons, List.cons_append]
+    rw [splitOn_append 10 _ _ (h it (by simp)), ih (fun x hx => h x (by simp [hx]))]
+
+theorem linesOf_renderItems (its : List Item) (h : ∀ it ∈ its, 10 ∉ it.text) :
+    linesOf (renderItems its) = its.map Item.text := by
+  unfold linesOf
+  rw [splitOn_renderItems its h]
+  simp
+
+theorem stripWs_ends (a m b : Bytes) (ha : a ≠ []) (hna : NoWs a) (hb : b ≠ []) (hnb : NoWs b) :
+    stripWs (a ++ m ++ b) = a ++ m ++ b := by
+  unfold stripWs rstripWs
+  have h1 : lstripWs (a ++ m ++ b) = a ++ m ++ b := by
+    cases a with
+    | nil => exact absurd rfl ha
+    | cons x xs => exact lstripWs_of_head (hna x (by simp))
+  rw [h1]
+  have h2 : lstripWs (a ++ m ++ b).reverse = (a ++ m ++ b).reverse := by
+    rw [List.reverse_append]
+    cases hr : b.reverse with
+    | nil => exact absurd (by simpa using hr) hb
+    | cons y ys =>
+      have hy : y ∈ b := by
+        have : y ∈ b.reverse := by rw [hr]; simp
+        simpa using this
+      exact lstripWs_of_head (hnb y hy)
+  rw [h2, List.reverse_reverse]
+
+theorem lstripWs_allWs (s : Bytes) (h : allWs s = true) : lstripWs s = [] := by
+  induction s with
+  | nil => rfl
+  | cons c cs ih =>
+    simp only [allWs, List.all_cons, Bool.and_eq_true] at h
+    simp only [lstripWs, h.1, if_true]
+    exact ih (by simpa [allWs] using h.2)
+
+theorem stripWs_allWs (s : Bytes) (h : allWs s = true) : stripWs s = [] := by
+  unfold stripWs
+  rw [lstripWs_allWs s h]
+  rfl
+
+theorem isPrefix_sep_false {c : Nat} (cs : Bytes) (h : c ≠ 58) : List.isPrefixOf sepText (c :: cs) = false := by
+  have : (58 == c) = false := by simpa using (fun e : 58 = c => h e.symm)
+  simp [sepText, List.isPrefixOf, this]
+
+theorem containsSeq_of_not_mem (s : Bytes) (h : 58 ∉ s) : containsSeq sepText s = false := by
+  induction s with
+  | nil => rfl
+  | cons c cs ih =>
+    have hc : c ≠ 58 := fun e => h (by simp [e])
+    simp [containsSeq, isPrefix_sep_false cs hc, ih (fun m => h (by simp [m]))]
+
+/-- no occurrence of the separator: `split` returns the whole line -/
+theorem splitSeqGo_none (s cur : Bytes) (h : containsSeq sepText s = false) :
+    splitSeqGo sepText s 0 cur = [cur.reverse ++ s] := by
+  induction s generalizing cur with
+  | nil => simp [splitSeqGo]
+  | cons c cs ih =>
+    simp only [containsSeq, Bool.or_eq_false_iff] at h
+    simp only [splitSeqGo, h.1, Bool.false_eq_true, if_false]
+    rw [ih _ h.2]
+    simp
+
+theorem splitSeq_one (a b : Bytes) (ha : 58 ∉ a) (hb : 58 ∉ b) :
+    splitSeq sepText (a ++ sepText ++ b) = [a, b] := by
+  unfold splitSeq
+  suffices h : ∀ cur, splitSeqGo sepText (a ++ sepText ++ b) 0 cur = [cur.reverse ++ a, b] by
+    simpa using h []
+  induction a with
+  | nil =>
+    intro cur
+    have hb' := splitSeqGo_none b [] (containsSeq_of_not_mem b hb)
+    simp only [List.reverse_nil, List.nil_append] at hb'
+    simp [sepText, splitSeqGo, List.isPrefixOf]
+    simpa [sepText] using hb'
+  | cons c cs ih =>
+    intro cur
+    have hc : c ≠ 58 := fun e => ha (by simp [e])
+    have hcs : 58 ∉ cs := fun m => ha (by simp [m])
+    simp only [List.cons_append, splitSeqGo, isPrefix_sep_false _ hc, Bool.false_eq_true, if_false]
+    rw [ih hcs]
+    simp
+
+theorem containsSeq_lstrip (s : Bytes) (h : containsSeq sepText s = false) :
+    containsSeq sepText (lstripWs s) = false := by
+  induction s with
+  | nil => exact h
+  | cons c cs ih =>
+    have h2 : containsSeq sepText cs = false := by
+      simp only [containsSeq, Bool.or_eq_false_iff] at h; exact h.2
+    simp only [lstripWs]
+    split
+    · exact ih h2
+    · exact h
+
+theorem lstripWs_suffix (s : Bytes) : ∃ pre, s = pre ++ lstripWs s := by
+  induction s with
+  | nil => exact ⟨[], rfl⟩
+  | cons c cs ih =>
+    simp only [lstripWs]
+    split
+    · obtain ⟨pre, hp⟩ := ih
+      exact ⟨c :: pre, by simp [← hp]⟩
+    · exact ⟨[], rfl⟩
+
+theorem containsSeq_prefix (p q : Bytes) (h : containsSeq sepText (p ++ q) = false) :
+    containsSeq sepText p = false := by
+  induction p with
+  | nil => rfl
+  | cons c cs ih =>
+    simp only [List.cons_append, containsSeq, Bool.or_eq_false_iff] at h ⊢
+    refine ⟨?_, ih h.2⟩
+    cases hp : List.isPrefixOf sepText (c :: cs) with
+    | false => rfl
+    | true =>
+      have h1 : sepText <+: c :: cs := List.isPrefixOf_iff_prefix.mp hp
+      have h2 : sepText <+: c :: (cs ++ q) := by
+        have := h1.trans (List.prefix_append (c :: cs) q)
+        simpa using this
+      have := List.isPrefixOf_iff_prefix.mpr h2
+      rw [this] at h
+      exact absurd h.1 (by simp)
+
+theorem containsSeq_strip (s : Bytes) (h : containsSeq sepText s = false) :
+    containsSeq sepText (stripWs s) = false := by
+  unfold stripWs rstripWs
+  have h1 := containsSeq_lstrip s h
+  obtain ⟨pre, hp⟩ := lstripWs_suffix (lstripWs s).reverse
+  have h2 : lstripWs s = (lstripWs (lstripWs s).reverse).reverse ++ pre.reverse := by
+    have := congrArg List.reverse hp
+    simpa using this
+  rw [h2] at h1
+  exact containsSeq_prefix _ _ h1
+
+theorem parseRadixAux_none (r : Radix) (s : Bytes) (h : ∃ c ∈ s, r.val c = none) :
+    ∀ acc, parseRadixAux r s acc = none := by
+  induction s with
+  | nil => obtain ⟨c, hc, _⟩ := h; cases hc
+  | cons x xs ih =>
+    intro acc
+    simp only [parseRadixAux]
+    cases hv : r.val x with
+    | none => rfl
+    | some d =>
+      obtain ⟨c, hc, hcv⟩ := h
+      rcases List.mem_cons.mp hc with e | hm
+      · subst e; rw [hv] at hcv; cases hcv
+      · exact ih ⟨c, hm, hcv⟩ _
+
+theorem pyInt_bad (val : Bytes) (hne : val ≠ []) (hn : NoWs val) (hb : ∃ c ∈ val, isDigit c = false) :
+    pyInt 10 val = none := by
+  unfold pyInt
+  rw [stripWs_noWs _ hn]
+  have : radixOf 10 = decimal := by simp [radixOf]
+  rw [this]
+  cases val with
+  | nil => exact absurd rfl hne
+  | cons x xs =>
+    simp only [parseRadix?]
+    apply parseRadixAux_none
+    obtain ⟨c, hc, hd⟩ := hb
+    refine ⟨c, hc, ?_⟩
+    simp only [isDigit, Bool.and_eq_false_iff, decide_eq_false_iff_not] at hd
+    show (if 48 ≤ c ∧ c ≤ 57 then some (c - 48) else none) = none
+    have : ¬ (48 ≤ c ∧ c ≤ 57) := by omega
+    simp [this]
+
+/-- what one line of a well-formed file does to `fields` -/
+def itemStep (guarded : Bool) : Item → LineStep
+  | .kv n v => .set n v
+  | .blank _ => .skip
+  | .junk _ => .skip
+  | .badval _ _ => if guarded then .skip else .raise .valueError
+
+theorem kv_text_no_nl (name : Bytes) (hn : NoWs name) (val : Nat) : 10 ∉ name ++ sepText ++ renderDec val := by
+  simp only [List.mem_append, not_or]
+  refine ⟨⟨?_, by decide⟩, renderDec_not_mem val 10 (by decide)⟩
+  intro hm
+  have := hn 10 hm
+  simp [isWs] at this
+
+theorem item_text_no_nl (it : Item) (h : WFItem it) : 10 ∉ it.text := by
+  cases it with
+  | kv name val => exact kv_text_no_nl name h.2.2 val
+  | blank ws => exact h.2
+  | junk s => exact h.1
+  | badval name val =>
+    obtain ⟨⟨_, _, hn⟩, _, _, hv, _⟩ := h
+    simp only [Item.text, List.mem_append, not_or]
+    refine ⟨⟨?_, by decide⟩, ?_⟩
+    · intro hm; have := hn 10 hm; simp [isWs] at this
+    · intro hm; have := hv 10 hm; simp [isWs] at this
+
+/-- `ioLine` after the `strip()` -/
+def ioLineCore (c : Cfg) (l : Bytes) : LineStep :=
+  if l.isEmpty then .skip
+  else
+    match splitSeq c.ioSep l with
+    | [name, value] =>
+      match pyInt 10 value with
+      | some v => .set name v
+      | none => if c.ioIntGuarded then .skip else .raise .valueError
+    | _ => .skip
+
+theorem ioLine_core (c : Cfg) (line : Bytes) : ioLine c line = ioLineCore c (stripWs line) := rfl
+
+theorem ioLine_item (c : Cfg) (hg : c.GoodIo) (it : Item) (h : WFItem it) :
+    ioLine c it.text = itemStep c.ioIntGuarded it := by
+  rw [ioLine_core]
+  cases it with
+  | kv name val =>
+    obtain ⟨hne, hcol, hn⟩ := h
+    simp only [Item.text, itemStep]
+    rw [stripWs_ends name sepText (renderDec val) hne hn (renderDec_ne_nil val) (renderDec_noWs val)]
+    have hnonempty : (name ++ sepText ++ renderDec val).isEmpty = false := by
+      cases name with
+      | nil => exact absurd rfl hne
+      | cons x xs => rfl
+    unfold ioLineCore
+    rw [hnonempty, hg.ioSep, splitSeq_one name (renderDec val) hcol (renderDec_not_mem val 58 (by decide))]
+    simp [pyInt_dec]
+  | blank ws =>
+    simp only [Item.text, itemStep, stripWs_allWs ws h.1]
+    rfl
+  | junk s =>
+    simp only [Item.text, itemStep]
+    have hs := containsSeq_strip s h.2
+    unfold ioLineCore
+    rw [hg.ioSep]
+    cases hl : stripWs s with
+    | nil => rfl
+    | cons x xs =>
+      rw [hl] at hs
+      have := splitSeqGo_none (x :: xs) [] hs
+      simp only [List.reverse_nil, List.nil_append] at this
+      simp [splitSeq, this]
+  | badval name val =>
+    obtain ⟨⟨hne, hcol, hn⟩, hvne, hvcol, hvn, hbad⟩ := h
+    simp only [Item.text, itemStep]
+    rw [stripWs_ends name sepText val hne hn hvne hvn]
+    have hnonempty : (name ++ sepText ++ val).isEmpty = false := by
+      cases name with
+      | nil => exact absurd rfl hne
+      | cons x xs => rfl
+    unfold ioLineCore
+    rw [hnonempty, hg.ioSep, splitSeq_one name val hcol hvcol]
+    simp [pyInt_bad val hvne hvn hbad]
+
+theorem ioFields_items (c : Cfg) (hg : c.GoodIo) (hgd : c.ioIntGuarded = true) (its : List Item)
+    (h : ∀ it ∈ its, WFItem it) :
+    ∀ acc, ioFields c (its.map Item.text) acc = .ok ((kvs its).reverse ++ acc) := by
+  induction its with
+  | nil => intro acc; rfl
+  | cons it its ih =>
+    intro acc
+    have hi := ioLine_item c hg it (h it (by simp))
+    have ih' := ih (fun x hx => h x (by simp [hx]))
+    simp only [List.map_cons, ioFields, hi, hgd]
+    cases it <;> simp [itemStep, kvs, ih']
+
+theorem lookup_none_of_not_mem (l : List (Bytes × Nat)) (k : Bytes) (h : k ∉ l.map (·.1)) :
+    l.lookup k = none := by
+  induction l with
+  | nil => rfl
+  | cons a as ih =>
+    simp only [List.map_cons, List.mem_cons, not_or] at h
+    have : (k == a.1) = false := by simpa using h.1
+    simp [List.lookup, this, ih h.2]
+
+theorem lookup_reverse_nodup (l : List (Bytes × Nat)) (k : Bytes) (h : (l.map (·.1)).Nodup) :
+    l.reverse.lookup k = l.lookup k := by
+  induction l with
+  | nil => rfl
+  | cons a as ih =>
+    simp only [List.map_cons, List.nodup_cons] at h
+    rw [List.reverse_cons, List.lookup_append, ih h.2]
+    cases hk : (k == a.1) with
+    | true =>
+      have e : k = a.1 := by simpa using hk
+      have hn := lookup_none_of_not_mem as k (by rw [e]; exact h.1)
+      simp [List.lookup, hk, hn]
+    | false =>
+      simp [List.lookup, hk]
+
+theorem lookupAll_eq_pick (l : List (Bytes × Nat)) (h : (l.map (·.1)).Nodup) (ks : List Bytes) :
+    lookupAll l.reverse ks = pick l ks := by
+  induction ks with
+  | nil => rfl
+  | cons k ks ih =>
+    simp only [lookupAll, pick, lookup_reverse_nodup l k h, ih]
+    cases List.lookup k l <;> cases pick l ks <;> rfl
+
+theorem ioCounters_items (c : Cfg) (hg : c.GoodIo) (hgd : c.ioIntGuarded = true) (its : List Item)
+    (h : ∀ it ∈ its, WFItem it) (hd : DistinctKeys its) :
+    ioCounters c true (.ok (renderItems its)) = expectedIo its := by
+  unfold ioCounters ioCountersBody expectedIo
+  simp only [linesOf_renderItems its (fun it hi => item_text_no_nl it (h it hi)),
+    ioFields_items c hg hgd its h [], List.append_nil, List.isEmpty_reverse, hg.ioKeys,
+    lookupAll_eq_pick _ hd]
+  cases hk : (kvs its).isEmpty with
+  | true => rfl
+  | false =>
+    simp only [Bool.false_eq_true, if_false]
+    cases pick (kvs its) documentedKeys <;> rfl
+
+theorem kvs_filter (its : List Item) : kvs (its.filter Item.isKv) = kvs its := by
+  induction its with
+  | nil => rfl
+  | cons it its ih => cases it <;> simp [List.filter_cons, Item.isKv, kvs, ih]
+
 end Psutil.C14
